@@ -125,6 +125,9 @@ impl<F: Field> PolynomialCoeffs<F> {
             if b.len() > l {
                 b.coeffs.drain(l..);
             }
+            // `b` holds coefficients `l..2l` of the inverse; trailing zeros removed by `trim`
+            // must be kept so that later blocks land at the right offset.
+            b.coeffs.resize(l, F::ZERO);
             a.coeffs.extend_from_slice(&b.coeffs);
         }
         a.coeffs.drain(n..);
